@@ -114,3 +114,31 @@ Definition py_float_word (s : string) : bool :=
   (String.eqb l "inf" || String.eqb l "infinity" || String.eqb l "nan")%bool.
 Definition known_C17_py_sqlmodel_float_word (t : table_def) : bool :=
   existsb (fun c => match c_default c with Some d => py_float_word (default_to_sql d) | None => false end) (t_columns t).
+
+(* ---------- the annotation of a column in the two Python ORMs ----------
+   column_type_to_python (sqlalchemy 457-499 = sqlmodel 437-479, called with col.nullable): base type, wrapped in
+   Optional[...] iff the column is nullable.  Enum columns use the Python to_pascal_case of the enum name. *)
+Definition py_base_type (t : column_type) : string :=
+  match t with
+  | TSimple SmallInt | TSimple Integer | TSimple BigInt => "int"
+  | TSimple Real | TSimple DoublePrecision => "float"
+  | TSimple Text | TSimple Interval | TSimple Inet | TSimple Cidr | TSimple Macaddr | TSimple Xml => "str"
+  | TSimple Boolean => "bool"
+  | TSimple Date => "date" | TSimple Time => "time" | TSimple Timestamp | TSimple Timestamptz => "datetime"
+  | TSimple Bytea => "bytes" | TSimple Uuid => "UUID" | TSimple Json => "dict"
+  | TVarchar _ | TChar _ | TCustom _ => "str"
+  | TNumeric _ _ => "Decimal"
+  | TEnum name _ => py_pascal_case name
+  end.
+Definition py_field_optional (c : column_def) : bool := c_nullable c.
+Definition py_annotation (c : column_def) : string :=
+  if py_field_optional c then "Optional[" +++ py_base_type (c_type c) +++ "]" else py_base_type (c_type c).
+(* comparison used by K-exp: the whole annotation text; for enum columns with a non-ASCII name (char::to_uppercase is
+   not modelled) only the Optional[...] wrapper *)
+Definition annotation_check (c : column_def) (ann : string) : bool :=
+  match c_type c with
+  | TEnum name _ =>
+      if all_chars (fun a => negb (non_ascii a)) name then String.eqb ann (py_annotation c)
+      else Bool.eqb (starts_with "Optional[" ann) (py_field_optional c)
+  | _ => String.eqb ann (py_annotation c)
+  end.
